@@ -181,6 +181,7 @@ class Module:
         from . import alpha
         self.tree = alpha.normalise_shape(self.tree)
         self.alpha_renames = alpha.normalise(self.tree, name)
+        self.alpha_new_params = alpha.new_params_as_defaults(self.tree, name)
         from . import refdist
         self.stmts_before_unextraction = refdist.statements(self.tree)
         self.alpha_unextracted = alpha.inline_new_helpers(self.tree, name)
